@@ -150,7 +150,7 @@ class State:
             goal = z3.BoolVal(goal)
         goal = z3.simplify(goal) if not z3.is_quantifier(goal) else goal
         ob.detail = detail
-        extra = core.any_axioms() if self.uses_any else []
+        extra = core.any_axioms(self.pc + [goal]) if self.uses_any else []
         key = (name, tuple(x.get_id() for x in self.pc), goal.get_id(), self.uses_any)
         hit = OBL_CACHE.get(key)
         if hit is not None:
